@@ -21,12 +21,14 @@ TRUSTED = ["hand model of broadcast_and_match_nan / mean(skipna) / np.unique / n
            "(no longer trusted) step sum / midpoint rule on a kink-complete grid = Mathlib's Lebesgue interval integral: proved in "
            "Lemmas/Bridge.lean and Props/C11Bridge.lean (integral_*_lebesgue, integral_over_thetas_*_lebesgue)"]
 ASSUMPTIONS = ["finite forecasts and observations (an infinite forecast makes fcst*0.0 NaN: see notes/C11.md)",
-               "all forecast sources passed to murphy_thetas have the same shape (see notes/C11.md)",
+               "murphy_thetas sources: any shapes / dims / coordinate label sets (labelled stream: stations a, lead times b, "
+               "a member dim only a source has); every dim of obs that a source also has is matched by label",
                "dyadic inputs so float + - * and comparisons are exact; means compared to 1e-9 (2e-6 when an input is "
                "stored as float32: the implementation then averages in float32)",
                "stored dtype of fcst / obs / thetas is float64, float32, int64 or int32 (signed; no unsigned integers); an "
                "integer-dtype array holds whole numbers and no NaN; the model and the Spec see the same numbers (exact in SV.Fl)",
-               "equal coordinate label sets on fcst and obs (any stored order)"]
+               "murphy_score value batches: equal coordinate label sets on fcst and obs (any stored order); differing label "
+               "sets only through the labelled murphy_thetas stream (curve shape and integral = loss over the shared labels)"]
 MANIFEST = dict(
     level="proof",
     text="Kernel-checked Lean theorems about the three elementary-score kernels and the combine block of murphy_score, "
@@ -43,8 +45,11 @@ MANIFEST = dict(
          "broadcast_and_match_nan, mean(skipna), np.unique/concatenate and the functional dispatch (tied by differential "
          "correspondence only); the step / midpoint-rule calculus is proved equal to Mathlib's Lebesgue interval integral (Props/C11Bridge.lean). "
          "Not proved in Lean: Taggart's closed form taggartH = elemH. Not generated: infinite forecasts (fcst*0.0 is NaN: the "
-         "quantile/Huber score of an infinite forecast is 0, notes/C11.md N1) and forecast sources of different shapes in "
-         "murphy_thetas (huber/expectile raise, N2); different coordinate label sets on fcst and obs.",
+         "quantile/Huber score of an infinite forecast is 0, notes/C11.md N1). Sources of murphy_thetas with differing "
+         "coordinate label sets / dims are generated (labelled stream): the Lean theorems kinks_subset_thetas_* / "
+         "integral_over_thetas_* already quantify over ANY pairing of a value of a source with a value of obs, so they cover "
+         "every label matching; which pairs murphy_score forms (shared labels, broadcast dims) is checked by the oracle only "
+         "(integral of each source's curve = Spec loss over the pairs at the labels that source shares with obs).",
     technique="Lean 4 theorems over translator-regenerated kernels + hand model of the frame; differential correspondence; "
               "exact-rational Spec oracle and relational oracles (constancy/affinity between thetas, midpoint integral = loss)",
     design="6/C11")
@@ -52,7 +57,10 @@ RULE = ("2-D (a x b) forecast/obs arrays of dyadic values from a small pool (40-
         "thetas drawn from the fcst/obs values, obs +- a, midpoints and NaN, as list / 1-D / 2-D DataArray, obs coordinates "
         "shuffled; ~55 % of cases store fcst / obs / sources / DataArray-thetas as int64, int32 or float32 (whole-number pool "
         "for integer dtypes), plus a per-functional stratum of all-integer / all-float32 sources with left_limit_delta > 0 for "
-        "murphy_thetas; distinct = canonical input hash; non-trivial = some finite output and at least one theta inside a "
+        "murphy_thetas, plus a labelled stream: 2-3 sources on stations x lead times (x member) whose label sets / dims "
+        "differ (strict subset of obs or of another source, extra labels nobody else has, no label shared with obs, sources "
+        "partitioning the stations, missing / extra / transposed dims, shuffled stored order), values mostly unique to their "
+        "point, 30 % of obs copied from a source at the same labels; distinct = canonical input hash; non-trivial = some finite output and at least one theta inside a "
         "data range")
 
 FUNCS = ["quantile", "huber", "expectile"]
@@ -493,50 +501,56 @@ def thetas_property(tc, loss_by_src):
     if len(th) == 0:
         return fails
     tol = thetas_tol(tc)
-    d = tc.get("delta") or 0
     for s in range(len(tc["sources"])):
-        pts = []
-        for lo, hi in zip(th, th[1:]):
-            w = hi - lo
-            pts += [lo, lo + w / 4, lo + w / 2, lo + 3 * w / 4]
-        pts += [th[-1], th[-1] + 1, th[0] - 1]
         tags = {"fn": tc["fn"], "source": s, "dtypes": dt}
-        try:
-            c = curve(tc, s, pts)
-        except _Unexpected as u:
-            fails.append(u.args)
-            continue
-        except Exception as ex:  # noqa: BLE001
-            fails.append(("murphy_score", "exception", core.exc_class(ex) + ": " + str(ex)[:200], "a Dataset", tags))
-            continue
-        if all(math.isnan(x) for x in c):
-            continue
-        if not (core.close_ff(c[-1], 0, **tol) and core.close_ff(c[-2], 0, **tol) and core.close_ff(c[-3], 0, **tol)):
-            fails.append(("murphy_score", "nonzero-outside-data-range", c[-3:], [0, 0, 0], tags))
-        integral = 0.0
-        for k, (lo, hi) in enumerate(zip(th, th[1:])):
-            p0, p1, p2, p3 = c[4 * k: 4 * k + 4]
-            if tc["fn"] == "quantile":
-                ok = core.close_ff(p0, p1, **tol) and core.close_ff(p0, p2, **tol) and core.close_ff(p0, p3, **tol)
-            else:
-                ok = core.close_ff(p2 - p0, 2 * (p1 - p0), **tol) and core.close_ff(p3 - p0, 3 * (p1 - p0), **tol)
-            if not ok:
-                fails.append(("murphy_thetas", "kink-inside-cell", [p0, p1, p2, p3],
-                              "constant" if tc["fn"] == "quantile" else "affine", dict(tags, cell=[lo, hi])))
-                break
-            if tc["fn"] != "quantile" and d > 0 and hi - lo > d:
-                # a cell wider than delta must end without a jump: the curve continued affinely to `hi` is the value
-                # there (a jump sits at every forecast value; its left-limit theta f - delta makes the cell narrow)
-                c_hi = c[4 * (k + 1)]
-                if not core.close_ff(p0 + 4 * (p1 - p0), c_hi, **tol):
-                    fails.append(("murphy_thetas", "jump-without-left-limit", [p0 + 4 * (p1 - p0), c_hi],
-                                  "a theta in [hi - delta, hi)", dict(tags, cell=[lo, hi], delta=d)))
-                    break
-            integral += (hi - lo) * p2
+        fails += _source_curve_fails(tc, th, tol, tags, lambda pts, s=s: curve(tc, s, pts), loss_by_src[s])
+    return fails
+
+
+def _source_curve_fails(tc, th, tol, tags, get_curve, exp_loss):
+    """the curve of ONE source on the grid `th` (strictly increasing, non-empty): constant / affine inside every cell,
+    zero outside, no jump at the end of a cell wider than delta, midpoint sum = `exp_loss`.  `get_curve(pts)` evaluates
+    the implementation's mean Murphy score of that source at the points `pts`."""
+    fails = []
+    d = tc.get("delta") or 0
+    pts = []
+    for lo, hi in zip(th, th[1:]):
+        w = hi - lo
+        pts += [lo, lo + w / 4, lo + w / 2, lo + 3 * w / 4]
+    pts += [th[-1], th[-1] + 1, th[0] - 1]
+    try:
+        c = get_curve(pts)
+    except _Unexpected as u:
+        return [u.args]
+    except Exception as ex:  # noqa: BLE001
+        return [("murphy_score", "exception", core.exc_class(ex) + ": " + str(ex)[:200], "a Dataset", tags)]
+    if all(math.isnan(x) for x in c):
+        return fails
+    if not (core.close_ff(c[-1], 0, **tol) and core.close_ff(c[-2], 0, **tol) and core.close_ff(c[-3], 0, **tol)):
+        fails.append(("murphy_score", "nonzero-outside-data-range", c[-3:], [0, 0, 0], tags))
+    integral = 0.0
+    for k, (lo, hi) in enumerate(zip(th, th[1:])):
+        p0, p1, p2, p3 = c[4 * k: 4 * k + 4]
+        if tc["fn"] == "quantile":
+            ok = core.close_ff(p0, p1, **tol) and core.close_ff(p0, p2, **tol) and core.close_ff(p0, p3, **tol)
         else:
-            exp = loss_by_src[s]
-            if not core.close(integral, exp, **tol):
-                fails.append(("murphy_score", "integral!=loss", integral, exp, tags))
+            ok = core.close_ff(p2 - p0, 2 * (p1 - p0), **tol) and core.close_ff(p3 - p0, 3 * (p1 - p0), **tol)
+        if not ok:
+            fails.append(("murphy_thetas", "kink-inside-cell", [p0, p1, p2, p3],
+                          "constant" if tc["fn"] == "quantile" else "affine", dict(tags, cell=[lo, hi])))
+            break
+        if tc["fn"] != "quantile" and d > 0 and hi - lo > d:
+            # a cell wider than delta must end without a jump: the curve continued affinely to `hi` is the value
+            # there (a jump sits at every forecast value; its left-limit theta f - delta makes the cell narrow)
+            c_hi = c[4 * (k + 1)]
+            if not core.close_ff(p0 + 4 * (p1 - p0), c_hi, **tol):
+                fails.append(("murphy_thetas", "jump-without-left-limit", [p0 + 4 * (p1 - p0), c_hi],
+                              "a theta in [hi - delta, hi)", dict(tags, cell=[lo, hi], delta=d)))
+                break
+        integral += (hi - lo) * p2
+    else:
+        if not core.close(integral, exp_loss, **tol):
+            fails.append(("murphy_score", "integral!=loss", integral, exp_loss, tags))
     return fails
 
 
@@ -548,6 +562,291 @@ def loss_ops(tc):
                                                "a": core.fl_str(tc["a"]) if tc["a"] is not None else None,
                                                "cases": cases, "thetas": []}})
     return out
+
+
+# ------------------------------------------------------------------------------------------ thetas, labelled sources
+# Forecast sources whose coordinate label sets / dims DIFFER (a source covers a subset of another's stations or lead
+# times, has extra labels nobody else has, lacks a dim or has one more).  murphy_score pairs a source with the obs at the
+# labels THAT source shares with obs (dims only one of them has are broadcast), so every kink of those pairs must be a
+# returned theta, whatever the other sources cover.
+LAB_A = [101, 102, 103, 104, 105, 106]      # stations
+LAB_B = [0, 6, 12, 18]                      # lead times
+LAB_M = [1, 2]                              # a dim only a forecast source has (member)
+LAB_UNIVERSE = {"a": LAB_A, "b": LAB_B, "m": LAB_M}
+
+
+def _nested(shape, draw):
+    if not shape:
+        return draw()
+    return [_nested(shape[1:], draw) for _ in range(shape[0])]
+
+
+def _lab_get(spec, point):
+    """value of the labelled array `spec` at `point` ({dim: label}); None if a label is not there"""
+    v = spec["values"]
+    for d, labs in zip(spec["dims"], spec["labels"]):
+        if point.get(d) not in labs:
+            return None
+        v = v[labs.index(point[d])]
+    return v
+
+
+def _lab_flat(spec):
+    out = []
+
+    def rec(v):
+        if isinstance(v, list):
+            for x in v:
+                rec(x)
+        else:
+            out.append(v)
+    rec(spec["values"])
+    return out
+
+
+def _lab_points(dims, labels):
+    pts = [{}]
+    for d, labs in zip(dims, labels):
+        pts = [dict(p, **{d: l}) for p in pts for l in labs]
+    return pts
+
+
+def lab_pairs(src, obs):
+    """the (forecast, obs) pairs murphy_score averages over for this source: shared dims are matched by label (only
+    labels both have), a dim that only one of the two has is broadcast"""
+    dims, labels = [], []
+    for d, labs in zip(src["dims"], src["labels"]):
+        dims.append(d)
+        labels.append([l for l in labs if l in obs["labels"][obs["dims"].index(d)]] if d in obs["dims"] else list(labs))
+    for d, labs in zip(obs["dims"], obs["labels"]):
+        if d not in dims:
+            dims.append(d)
+            labels.append(list(labs))
+    return [(_lab_get(src, p), _lab_get(obs, p)) for p in _lab_points(dims, labels)]
+
+
+def gen_labelled_thetas_case(rng, fn=None):
+    fn = fn or rng.choice(FUNCS)
+    ns = rng.choice([2, 2, 2, 3])
+    sdt = _draw_dtypes(rng, ns)
+    odt = rng.choice(["float64", "float64"] + DTYPES)
+    whole = any(_is_int(d) for d in sdt + [odt])
+    # distinct values: a point that only one source covers mostly carries a value that occurs nowhere else
+    uniq = [float(k) for k in range(-12, 13)] if whole else [k / 4 for k in range(-40, 41)]
+    rng.shuffle(uniq)
+    pool = [uniq.pop() for _ in range(3)]
+    obs_dims = rng.choice([["a", "b"], ["a", "b"], ["b", "a"], ["a"]])
+    oa = sorted(rng.sample(LAB_A, rng.randint(2, 4)))
+    ob = sorted(rng.sample(LAB_B, rng.randint(1, 3)))
+    olabs = {"a": oa, "b": ob}
+
+    def sub(labs):
+        # a strict non-empty subset when there is one
+        if len(labs) < 2:
+            return list(labs)
+        return sorted(rng.sample(labs, rng.randint(1, len(labs) - 1)))
+
+    def src_labels(kind, d):
+        base = olabs.get(d) or sorted(rng.sample(LAB_UNIVERSE[d], rng.randint(1, 2)))
+        rest = [l for l in LAB_UNIVERSE[d] if l not in base]
+        if kind == "full" or d == "m":
+            return list(base)
+        if kind == "subset":
+            return sub(base)
+        if kind == "extra":       # some of the obs labels plus labels nobody asked for
+            return sorted((sub(base) if rng.random() < 0.6 else list(base)) + rng.sample(rest, min(len(rest), rng.randint(1, 2))))
+        return sorted(rng.sample(rest, min(len(rest), rng.randint(1, 2)))) or list(base)      # "foreign": no obs label
+
+    srcs = []
+    partition = rng.random() < 0.2 and len(oa) >= ns       # the sources split the stations between them
+    cut = sorted(rng.sample(range(1, len(oa)), ns - 1)) if partition else []
+    for k in range(ns):
+        r = rng.random()
+        dims = (["a", "b"] if r < 0.5 else ["b", "a"] if r < 0.65 else ["a"] if r < 0.8 else ["b"] if r < 0.87
+                else rng.choice([["a", "b", "m"], ["m", "a"], ["a", "m", "b"]]))
+        labels = []
+        for d in dims:
+            if partition and d == "a":
+                labels.append(oa[([0] + cut)[k]: (cut + [len(oa)])[k]])
+                continue
+            kind = rng.choice(["full", "full", "subset", "subset", "subset", "extra", "extra", "foreign"]
+                              if d == "a" else ["full", "full", "full", "subset", "extra"])
+            if k == 0 and rng.random() < 0.5:
+                kind = "full"
+            labels.append(src_labels(kind, d))
+        for labs in labels:
+            rng.shuffle(labs)          # stored order is not label order
+        srcs.append(dict(dims=dims, labels=labels, dtype=sdt[k]))
+    olab = [list(olabs[d]) for d in obs_dims]
+    for labs in olab:
+        rng.shuffle(labs)
+    obs = dict(dims=obs_dims, labels=olab, dtype=odt)
+    nanr = rng.choice([0, 0, 0, 0.15])
+
+    def draw_f(dt):
+        def f():
+            if not _is_int(dt) and rng.random() < nanr:
+                return core.NAN
+            return uniq.pop() if uniq and rng.random() < 0.6 else rng.choice(pool)
+        return f
+    for sp in srcs:
+        sp["values"] = _nested([len(l) for l in sp["labels"]], draw_f(sp["dtype"]))
+
+    # obs: 30 % copied from a source at the same labels (fcst == obs), else drawn like the forecasts
+    def fill_obs(dims, labels, point):
+        if not dims:
+            cands = [v for v in (_lab_get(sp, point) for sp in srcs) if v is not None and not math.isnan(v)]
+            if cands and rng.random() < 0.3:
+                return rng.choice(cands)
+            return draw_f(odt)()
+        return [fill_obs(dims[1:], labels[1:], dict(point, **{dims[0]: l})) for l in labels[0]]
+    obs["values"] = fill_obs(obs_dims, olab, {})
+    a = rng.choice([0.25, 0.5, 1.0, 2.0]) if fn == "huber" else None
+    delta = rng.choice([None, 0, 0.125, 0.0625, 0.25, 1.0, 0.125])
+    alpha = rng.choice([0.25, 0.5, 0.75, 0.125])
+    return dict(fn=fn, lsources=srcs, lobs=obs, a=a, delta=delta, alpha=alpha, labelled=True)
+
+
+def _lab_array(spec):
+    return xr.DataArray(_stored(spec["values"], spec.get("dtype")), dims=[fresh(d) for d in spec["dims"]],
+                        coords={d: list(l) for d, l in zip(spec["dims"], spec["labels"])})
+
+
+def lab_features(tc):
+    """which structural differences between the sources / obs the case realises (for the measured distribution)"""
+    out = set()
+    obs = tc["lobs"]
+    olab = dict(zip(obs["dims"], map(set, obs["labels"])))
+    slabs = [dict(zip(sp["dims"], map(set, sp["labels"]))) for sp in tc["lsources"]]
+    for sl in slabs:
+        if set(sl) != set(olab):
+            out.add("dims-differ-from-obs")
+        for d, labs in sl.items():
+            if d in olab:
+                if labs < olab[d]:
+                    out.add("source-covers-subset-of-obs")
+                if labs - olab[d]:
+                    out.add("source-has-labels-obs-lacks")
+                if not labs & olab[d]:
+                    out.add("source-shares-no-label-with-obs")
+    for i, x in enumerate(slabs):
+        for y in slabs[i + 1:]:
+            if set(x) != set(y):
+                out.add("sources-have-different-dims")
+            for d in set(x) & set(y):
+                if x[d] < y[d] or y[d] < x[d]:
+                    out.add("one-source-subset-of-another")
+                elif x[d] != y[d]:
+                    out.add("sources-disjoint" if not x[d] & y[d] else "sources-overlap-partially")
+    return sorted(out) or ["same-labels"]
+
+
+def lab_dtypes(tc):
+    return "/".join(str(sp.get("dtype") or "float64") for sp in tc["lsources"]) + "|" + str(tc["lobs"].get("dtype") or "float64")
+
+
+def lab_tol(tc):
+    return _tol(tc["lobs"].get("dtype"), *(sp.get("dtype") for sp in tc["lsources"]))
+
+
+def call_thetas_labelled(tc):
+    from scores.continuous import murphy_thetas
+    fs = [_lab_array(sp) for sp in tc["lsources"]]
+    return [float(x) for x in murphy_thetas(fs, _lab_array(tc["lobs"]), tc["fn"], huber_a=tc["a"],
+                                            left_limit_delta=tc["delta"])]
+
+
+def curve_labelled(tc, src, pts):
+    from scores.continuous import murphy_score
+    with np.errstate(all="ignore"):
+        r = murphy_score(_lab_array(tc["lsources"][src]), _lab_array(tc["lobs"]), [float(p) for p in pts],
+                         functional=tc["fn"], alpha=tc["alpha"], huber_a=tc["a"])
+    v = np.asarray(r["total"].values)
+    if v.shape != (len(pts),):
+        raise _Unexpected("murphy_score.total", "result-shape", list(v.shape), [len(pts)], {"fn": tc["fn"], "source": src})
+    return [float(x) for x in v]
+
+
+def _kinks_of(tc, fvals, ovals):
+    """kinks (and left-limit points) generated by forecast values `fvals` and observations `ovals`"""
+    out = set(fvals) | set(ovals)
+    if tc["fn"] in ("huber", "expectile"):
+        d = tc["delta"] or 0
+        out |= {v - d for v in fvals}
+    if tc["fn"] == "huber":
+        out |= {v - tc["a"] for v in ovals} | {v + tc["a"] for v in ovals}
+    return out
+
+
+def lab_required(tc, src):
+    """the thetas source `src` needs: the kinks of its cases, i.e. of its values paired with the obs at the labels it
+    shares with obs (both present)"""
+    prs = [(f, o) for f, o in lab_pairs(tc["lsources"][src], tc["lobs"]) if not (math.isnan(f) or math.isnan(o))]
+    return sorted(_kinks_of(tc, {f for f, _ in prs}, {o for _, o in prs}))
+
+
+def lab_allowed(tc):
+    """every value anywhere in a source or in obs generates thetas at most these (what the model of murphy_thetas,
+    which never looks at labels, returns)"""
+    fv = {v for sp in tc["lsources"] for v in _lab_flat(sp) if not math.isnan(v)}
+    ov = {v for v in _lab_flat(tc["lobs"]) if not math.isnan(v)}
+    return sorted(_kinks_of(tc, fv, ov))
+
+
+def labelled_thetas_op(tc):
+    return {"op": "c11.thetas", "args": {
+        "fn": tc["fn"], "forecasts": [[core.fl_str(v) for v in _lab_flat(sp)] for sp in tc["lsources"]],
+        "obs": [core.fl_str(v) for v in _lab_flat(tc["lobs"])],
+        "a": core.fl_str(tc["a"]) if tc["a"] is not None else "nan",
+        "delta": core.fl_str(tc["delta"]) if tc["delta"] is not None else None}}
+
+
+def labelled_loss_ops(tc):
+    return [{"op": "c11.spec", "args": {"fn": tc["fn"], "alpha": core.fl_str(tc["alpha"]),
+                                        "a": core.fl_str(tc["a"]) if tc["a"] is not None else None,
+                                        "cases": [[core.fl_str(f), core.fl_str(o)] for f, o in lab_pairs(sp, tc["lobs"])],
+                                        "thetas": []}} for sp in tc["lsources"]]
+
+
+def labelled_thetas_property(tc, loss_by_src):
+    """sources with differing label sets / dims: the returned thetas are strictly increasing, contain every kink of every
+    source's own cases (its values paired with obs at the labels IT shares with obs), contain nothing that no value
+    generates, and each source's curve is constant / affine between consecutive thetas, zero outside, and integrates
+    (midpoint sum) to the mean loss over that source's cases"""
+    fails = []
+    base = {"fn": tc["fn"], "dtypes": lab_dtypes(tc), "labels": "differ"}
+    try:
+        th = call_thetas_labelled(tc)
+    except Exception as ex:  # noqa: BLE001
+        return [("murphy_thetas", "exception", core.exc_class(ex) + ": " + str(ex)[:200], "a list", base)]
+    if any(math.isnan(t) or math.isinf(t) for t in th) or any(hi <= lo for lo, hi in zip(th, th[1:])):
+        return [("murphy_thetas", "thetas-not-finite-increasing", th, "finite, strictly increasing", base)]
+    allowed = set(lab_allowed(tc))
+    extra = [t for t in th if t not in allowed]
+    if extra:
+        fails.append(("murphy_thetas", "theta-no-value-generates", extra, sorted(allowed), base))
+    reported = False
+    for s in range(len(tc["lsources"])):
+        req = lab_required(tc, s)
+        missing = [k for k in req if k not in th]
+        if missing and not reported:
+            reported = True
+            fails.append(("murphy_thetas", "kink-of-source-missing", th, req, dict(base, source=s, missing=missing)))
+    if len(th) == 0:
+        return fails
+    tol = lab_tol(tc)
+    for s in range(len(tc["lsources"])):
+        fails += _source_curve_fails(tc, th, tol, dict(base, source=s),
+                                     lambda pts, s=s: curve_labelled(tc, s, pts), loss_by_src[s])
+    return fails
+
+
+def tag_labelled(ctx, tc, prefix):
+    for f in lab_features(tc):
+        ctx.tag(prefix + f)
+    sd = [sp.get("dtype") or "float64" for sp in tc["lsources"]]
+    ctx.tag(prefix + "dtype=" + ("all-float64" if all(x == "float64" for x in sd + [tc["lobs"].get("dtype") or "float64"])
+                                 else "other"))
 
 
 # ------------------------------------------------------------------------------------------ malformed
@@ -604,6 +903,23 @@ def correspondence(ctx):
         if th != exp:
             ctx.fail("impl-vs-model:murphy_thetas", "correspondence", "murphy_thetas", "theta-set", dict(tc, check="thetas"),
                      observed=th, expected=exp, tags={"fn": tc["fn"]})
+    # labelled sources with differing label sets / dims: the model never looks at labels (flattened values per source)
+    ltcs = [gen_labelled_thetas_case(ctx.rng) for _ in range(ctx.n(60, 1200))]
+    res = core.run_driver("C11", [labelled_thetas_op(t) for t in ltcs])
+    for tc, r in zip(ltcs, res):
+        ctx.case("impl-vs-model:murphy_thetas-labelled", tc)
+        tag_labelled(ctx, tc, "thetas-labelled:")
+        exp = [float(core.parse_fl(x)) for x in r]
+        try:
+            th = call_thetas_labelled(tc)
+        except Exception as ex:  # noqa: BLE001
+            ctx.fail("impl-vs-model:murphy_thetas-labelled", "correspondence", "murphy_thetas", "exception",
+                     dict(tc, check="thetas-labelled-model"), observed=core.exc_class(ex) + ": " + str(ex)[:200], expected=exp)
+            continue
+        if th != exp:
+            ctx.fail("impl-vs-model:murphy_thetas-labelled", "correspondence", "murphy_thetas", "theta-set",
+                     dict(tc, check="thetas-labelled-model"), observed=th, expected=exp,
+                     tags={"fn": tc["fn"], "labels": "differ"})
     # malformed stream: guards
     bads = [gen_bad(ctx.rng) for _ in range(ctx.n(40, 400))]
     res = core.run_driver("C11", [o for b in bads for o in bad_ops(b)])
@@ -699,7 +1015,31 @@ def oracle(ctx, boost):
                      observed=obs_, expected=exp, tags=tags,
                      theorem={"kink-inside-cell": "kinks_subset_thetas", "integral!=loss": "integral_eq_loss",
                               "theta-set": "kinks_subset_thetas", "jump-without-left-limit": "kinks_subset_thetas"}.get(sig))
+    labelled_oracle(ctx, ctx.n(70, 1500) * m)
     mixed_shape_probe(ctx)
+
+
+def labelled_oracle(ctx, n):
+    """murphy_thetas for sources whose label sets / dims differ: per-source kinks, curve shape, integral = loss"""
+    tcs = [gen_labelled_thetas_case(ctx.rng) for _ in range(n)]
+    tcs += [gen_labelled_thetas_case(ctx.rng, fn=fn) for fn in FUNCS for _ in range(max(2, n // 20))]
+    ops, spans = [], []
+    for tc in tcs:
+        o = labelled_loss_ops(tc)
+        spans.append((len(ops), len(ops) + len(o)))
+        ops += o
+    res = core.run_driver("C11", ops)
+    for tc, (lo, hi) in zip(tcs, spans):
+        feats = lab_features(tc)
+        ctx.case("thetas-labelled-sources", tc, nontrivial=feats != ["same-labels"])
+        ctx.tag("thetas-labelled-oracle:" + tc["fn"])
+        tag_labelled(ctx, tc, "thetas-labelled-oracle:")
+        for site, sig, obs_, exp, tags in labelled_thetas_property(tc, [r["loss"] for r in res[lo:hi]]):
+            ctx.fail("thetas-labelled-sources", "property", site, sig, dict(tc, check="thetas-labelled"),
+                     observed=obs_, expected=exp, tags=tags,
+                     theorem={"kink-inside-cell": "kinks_subset_thetas", "integral!=loss": "integral_eq_loss",
+                              "kink-of-source-missing": "kinks_subset_thetas",
+                              "jump-without-left-limit": "kinks_subset_thetas"}.get(sig))
 
 
 def mixed_shape_probe(ctx):
@@ -727,6 +1067,8 @@ def replay(ctx, payload):
     def unnan(x):
         if isinstance(x, list):
             return [unnan(v) for v in x]
+        if isinstance(x, dict):
+            return {k: unnan(v) for k, v in x.items()}
         if x == "nan":
             return core.NAN
         if x == "inf":
@@ -741,6 +1083,14 @@ def replay(ctx, payload):
     if chk == "thetas-property":
         res = core.run_driver("C11", loss_ops(case))
         return bool(thetas_property(case, [r["loss"] for r in res]))
+    if chk == "thetas-labelled":
+        res = core.run_driver("C11", labelled_loss_ops(case))
+        return bool(labelled_thetas_property(case, [r["loss"] for r in res]))
+    if chk == "thetas-labelled-model":
+        try:
+            return call_thetas_labelled(case) != lab_allowed(case)
+        except Exception:  # noqa: BLE001
+            return True
     if chk == "thetas":
         try:
             return call_thetas(case) != kink_spec(case)
